@@ -559,6 +559,27 @@ func c17Scenarios() []pxScenario {
 			}
 		}
 	}
+	// return routes naming the proxy itself, peers, unknown names, of length 0..3, from honest senders
+	for v, nx := range [][]int64{{99}, {8, 99}, {99, 99}, {99, 2}, {2, 99, 7}, {7, 7, 99}, {}} {
+		b := &pxBuilder{tok: 100}
+		b.add(att(1)...)
+		b.add(att(2)...)
+		b.add(b.send(1, 2))
+		a := b.send(1, 2)
+		a.Next, a.HasN = nx, true
+		b.add(a)
+		b.add(b.send(2, 1))
+		a = b.send(2, 1)
+		a.Next, a.HasN, a.Rec = nx, true, []int64{8}
+		b.add(a)
+		b.add(b.send(1, 2))
+		out = append(out, pxScenario{Icp: v % 2 * 5, ByRef: v%2 == 0, Steps: b.steps, Tags: []string{"own-id-routes"}})
+	}
+	for _, how := range []string{"read"} {
+		for _, same := range []bool{true, false} {
+			out = append(out, pxReattachInCallback(how, same, 0))
+		}
+	}
 	for _, k := range []int{1, 5, 16} {
 		for rep := 0; rep < 6; rep++ { // which case the write loop's select picks is the runtime's: repeated
 			out = append(out, c17CancelQueued(k, false, rep))
